@@ -140,7 +140,7 @@ pub fn input_tuples(tier: Tier) -> Vec<InTuple> {
     // hash-block and length-prefix boundary lengths, one slot at a time (both tiers): a defect conditional on an
     // input length near 32/48/64/128 bytes (digest and block sizes of SHA-256/384/512) would otherwise be missed
     let d = mk(&[0, 0, 0, 0, 0, 0], 0);
-    for n in [15usize, 16, 17, 31, 32, 33, 47, 48, 49, 55, 56, 63, 64, 65, 66, 111, 112, 119, 120, 127, 128, 129, 1000] {
+    for n in [15usize, 16, 17, 31, 32, 33, 47, 48, 49, 55, 56, 63, 64, 65, 66, 67, 68, 96, 97, 111, 112, 119, 120, 127, 128, 129, 1000] {
         let v = |c: u8| (0..n).map(|i| c.wrapping_add(i as u8)).collect::<Vec<u8>>();
         for slot in 0..5 {
             let mut t = d.clone();
